@@ -247,6 +247,11 @@ func (r *Run) Write() int {
 	}
 	b, _ := json.MarshalIndent(out, "", " ")
 	dir := filepath.Join(Root(), "evidence")
+	if rp := os.Getenv("VERIF_REPO"); (rp != "" && rp != "/repo") || os.Getenv("VERIF_SCENARIO") != "" {
+		// a run against a scratch copy carrying a seeded change, or of a
+		// single scenario: not evidence about /repo
+		dir = filepath.Join(Root(), "build", "scratch-evidence")
+	}
 	os.MkdirAll(dir, 0o755)
 	if err := os.WriteFile(filepath.Join(dir, r.ID+".json"), append(b, '\n'), 0o644); err != nil {
 		InfraError("write evidence: %v", err)
